@@ -570,3 +570,40 @@ twin('c15-copy-then-write', 'C15', PR + 'rastrigin.py', 'Rastrigin.Calculate', '
 twin('c15-helper', 'C15', PR + 'xsquared.py', 'XSquared.Calculate',
      '        for i in range(self.dimension):\n            sum += point.floatVariables[i] * point.floatVariables[i]\n',
      '        sum = float(np.dot(point.floatVariables, point.floatVariables))\n')
+
+# ----------------------------------------------------------------------------- C17
+fire('c17-return-scratch', 'C17', EV, 'Evolvent.GetImage', 'return np.copy(self.yValues)', 'return self.yValues', 'R17.1')
+fire('c17-arg-nocopy', 'C17', EV, 'Evolvent.GetInverseImage', 'self.yValues = np.array(y, dtype=np.double)',
+     'self.yValues = y', 'R17.2')
+fire('c17-arg-asarray', 'C17', EV, 'Evolvent.GetPreimages', 'self.yValues = np.array(y, dtype=np.double)',
+     'self.yValues = np.asarray(y)', None)
+fire('c17-dtype-copy', 'C17', EV, 'Evolvent.GetInverseImage', 'self.yValues = np.array(y, dtype=np.double)',
+     'self.yValues = np.copy(y)', 'R17.3')
+fire('c17-dtype-array-nodtype', 'C17', EV, 'Evolvent.GetPreimages', 'self.yValues = np.array(y, dtype=np.double)',
+     'self.yValues = np.array(y)', 'R17.3')
+fire('c17-dtype-int', 'C17', EV, 'Evolvent.GetPreimages', 'self.yValues = np.array(y, dtype=np.double)',
+     'self.yValues = np.array(y, dtype=np.int32)', 'R17.3')
+fire('c17-no-reinit', 'C17', EV, 'Evolvent.__GetYonX',
+     '        self.yValues = np.zeros(self.numberOfFloatVariables, dtype=np.double)\n', '', 'R17.3')
+fire('c17-orientation-on-self', 'C17', EV, 'Evolvent.__GetYonX',
+     '        iw = np.ones(self.numberOfFloatVariables, dtype=np.int32)\n',
+     '        iw = self.iw\n', None,
+     also=[(EV, 'Evolvent.__init__', '        self.nexpValue = 0  # nexpExtended\n',
+            '        self.nexpValue = 0  # nexpExtended\n        self.iw = np.ones(self.numberOfFloatVariables, dtype=np.int32)\n')])
+fire('c17-setbounds-nocopy', 'C17', EV, 'Evolvent.SetBounds',
+     'self.lowerBoundOfFloatVariables = np.copy(lowerBoundOfFloatVariables)', 'self.lowerBoundOfFloatVariables = lowerBoundOfFloatVariables',
+     None, also=[(EV, 'Evolvent.__TransformD2P', '        for i in range(0, self.numberOfFloatVariables):\n',
+                  '        self.lowerBoundOfFloatVariables[0] += 0.0\n        for i in range(0, self.numberOfFloatVariables):\n')])
+fire('c17-density-written', 'C17', EV, 'Evolvent.GetImage', '        self.__GetYonX(x)\n',
+     '        self.evolventDensity = min(self.evolventDensity, 50)\n        self.__GetYonX(x)\n', None)
+fire('c17-nexp-accumulates', 'C17', EV, 'Evolvent.__GetXonY', '        r = 0.5\n        r1 = 1.0\n',
+     '        r = 0.5\n        r1 = 1.0\n        self.nexpExtended += 0.0\n', 'R17.5')
+twin('c17-float64', 'C17', EV, 'Evolvent.GetInverseImage', 'self.yValues = np.array(y, dtype=np.double)',
+     'self.yValues = np.array(y, dtype=np.float64)')
+twin('c17-float-builtin', 'C17', EV, 'Evolvent.GetPreimages', 'self.yValues = np.array(y, dtype=np.double)',
+     'self.yValues = np.array(y, dtype=float)')
+twin('c17-zeros-default', 'C17', EV, 'Evolvent.__GetYonX',
+     'self.yValues = np.zeros(self.numberOfFloatVariables, dtype=np.double)', 'self.yValues = np.zeros(self.numberOfFloatVariables)')
+twin('c17-copy-result-array', 'C17', EV, 'Evolvent.GetImage', 'return np.copy(self.yValues)', 'return np.array(self.yValues)')
+twin('c17-n1-rebind', 'C17', EV, 'Evolvent.__GetYonX', '            self.yValues[0] = _x - 0.5\n',
+     '            self.yValues = np.zeros(1, dtype=np.double)\n            self.yValues[0] = _x - 0.5\n')
